@@ -25,6 +25,7 @@ mod c10;
 mod c11;
 mod c12;
 mod c13;
+mod c14live;
 mod gen_wizard;
 mod c15;
 mod c16;
@@ -98,6 +99,8 @@ fn main() {
         "c07socks" => c07socks::run(&mut ctx),
         "c09" => c09::run(&mut ctx),
         "c10" | "c01" => c10::run(&mut ctx),
+        "c14est" => c10::run_establish(&mut ctx),
+        "c14live" => c14live::run(&mut ctx),
         "c11" => c11::run(&mut ctx),
         "c12" => c12::run(&mut ctx),
         "c13" => c13::run(&mut ctx),
